@@ -676,12 +676,29 @@ pub async fn dg_sender(sh: Sh, mux: Arc<Mux>, ep: u8, seed: u64, plans: Vec<DgPl
 }
 
 /// Receive datagrams until the mux closes. Identity: (flow_id, port) — unique per plan by construction.
+/// `pause_ms` value that selects the cancelling receiver (see `dg_receiver`)
+pub const DG_RECV_CANCELLING: u64 = u64::MAX;
+
 pub async fn dg_receiver(sh: Sh, mux: Arc<Mux>, ep: u8, seed: u64, sent_by_peer: Arc<Vec<DgPlan>>, pause_ms: u64, start_delay: u64) {
     if start_delay > 0 {
         tokio::time::sleep(Duration::from_millis(start_delay)).await;
     }
     loop {
-        match mux.get_datagram().await {
+        // "cancelling" receivers poll get_datagram() once and drop the future when it is not ready at once, the way a
+        // select! next to other event sources does: a datagram must not be lost inside an abandoned call
+        let next = if pause_ms == DG_RECV_CANCELLING {
+            use futures_util::FutureExt;
+            match mux.get_datagram().now_or_never() {
+                Some(r) => r,
+                None => {
+                    tokio::time::sleep(Duration::from_millis(1)).await;
+                    continue;
+                }
+            }
+        } else {
+            mux.get_datagram().await
+        };
+        match next {
             Ok(d) => {
                 let found = sent_by_peer.iter().find(|p| p.flow_id == d.flow_id && p.port == d.target_port);
                 match found {
@@ -691,7 +708,9 @@ pub async fn dg_receiver(sh: Sh, mux: Arc<Mux>, ep: u8, seed: u64, sent_by_peer:
                     }
                     None => sh.api(ep, 0, Api::DgRecv { id: u64::MAX, fields_ok: false }),
                 }
-                if pause_ms > 0 {
+                if pause_ms == DG_RECV_CANCELLING {
+                    sim::jitter_yield(&sh).await;
+                } else if pause_ms > 0 {
                     tokio::time::sleep(Duration::from_millis(pause_ms)).await;
                 } else {
                     sim::jitter_yield(&sh).await;
